@@ -221,9 +221,21 @@ def gen_instances(rng, quick):
     yield 'pure path', pathlib.PosixPath('/tmp/x')
 
 
+def helper_function(x):
+    return x
+
+
+# values that the bundled printers show as an identifier followed by an end-of-line comment ("print  # built-in function", "collections.deque  # class"):
+# as a field / keyword value they put a comment in the middle of a call, which must then break after it
+IDENT_VALUES = [print, len, sorted, max, collections.OrderedDict, collections.deque, dt.datetime, dt.timezone, uuid.UUID, helper_function, functools.partial,
+                int, dict, pathlib.PurePosixPath]
+
+
 def rand_instances(rng, n):
     """seeded random instances of every family (contents from the built-in value generator)"""
     def val(depth=2):
+        if rng.random() < 0.12:
+            return rng.choice(IDENT_VALUES)
         return V.build(V.rand_tree(rng, depth=depth, budget=[rng.randint(1, 5)]))
 
     def hval():
@@ -282,7 +294,7 @@ def skey(o):
     """structural key: equality of keys == the equality the property demands"""
     t = type(o)
     if isinstance(o, BaseException):
-        extra = (o.errno, o.strerror) if isinstance(o, OSError) else ()
+        extra = (skey(o.errno), skey(o.strerror)) if isinstance(o, OSError) else ()
         return ('exc', t, tuple(skey(a) for a in o.args), extra)
     if t is functools.partial:
         return ('partial', skey(o.func), tuple(skey(a) for a in o.args), tuple(sorted((k, skey(v)) for k, v in o.keywords.items())))
